@@ -474,6 +474,14 @@ impl ISocket for DealerSocket {
     if !self.core.is_running() {
       return Err(ZmqError::InvalidState("Socket is closing".into()));
     }
+    // A message half read with recv() is finished first: return its unread frames.
+    if let Some(frames) = self.frame_recv_buffer.lock().take() {
+      if !frames.is_empty() {
+        let mut rest = FrameBatch::new();
+        rest.extend(frames);
+        return Ok(rest);
+      }
+    }
     let rcvtimeo_opt: Option<Duration> = self.core.core_state.read().options.rcvtimeo;
     let (_, batch) = self.ingress_engine.recv_logical_message(rcvtimeo_opt).await?;
     self.process_incoming_zmtp_message_for_dealer(0, batch)
